@@ -260,9 +260,9 @@ func c01Scenario(r *vx.Rand) {
 }
 
 func runC01() {
-	n := 700
+	n := 900
 	if run.Thorough() {
-		n = 12000
+		n = 20000
 	}
 	for i := 0; i < n; i++ {
 		c01Scenario(rnd.Fork())
